@@ -415,7 +415,7 @@ def functional(ctx, model_ok):
     Returns (disagreements, judge_failures)."""
     rng = ctx.rng.fork("functional")
     quick = ctx.tier == "quick"
-    bcs = bc_cases(rng.fork("bc"), 10000 if quick else 200000)
+    bcs = bc_cases(rng.fork("bc"), 10000 if quick else 150000)
     fees = fee_cases(rng.fork("fee"), 300 if quick else 20000)
     dusts = dust_cases(rng.fork("dust"), 300 if quick else 20000)
     ncss = ncs_cases(rng.fork("ncs"), 1500 if quick else 40000)
@@ -648,15 +648,20 @@ def trace_layer(ctx):
     if "h_chan" not in BINS:
         return []
     quick = ctx.tier == "quick"
-    n, nl = (400, 60) if quick else (20000, 200)
+    n, nl = (440, 60) if quick else (6000, 150)
+    keep = 32 if quick else 300
     lines = T.gen_schedules(ctx.rng.fork("trace"), n, nl)
-    recs = T.run_harness(ctx, lines, "trace", timeout=1500)
     tot = {}
     fails = []
     nontrivial = 0
     fam = {}
-    for line, r in zip(lines, recs):
+    nsteps = 0
+    kept = {}
+    sample = None
+    for i, r in T.iter_harness(ctx, lines, "trace", timeout=1700):
+        line = lines[i]
         fs, st = T.judge_trace(ref_commit, r)
+        nsteps += len(r.get("steps", []))
         for k, v in st.items():
             if isinstance(v, dict):
                 for kk, vv in v.items():
@@ -668,13 +673,20 @@ def trace_layer(ctx):
         f_ = line.split()[1].split("-")[0]
         fam[f_] = fam.get(f_, 0) + 1
         for f in fs[:1]:
-            fails.append((line, r, f))
-    ctx.coverage["trace"] = {"schedules": len(lines), "max_labels": nl, "families": fam, "steps": sum(len(r.get("steps", [])) for r in recs), "judged": tot}
+            if len(fails) < 200:
+                # keep only what classification / reporting needs
+                fails.append((line, r, f))
+        if i < keep:
+            kept[i] = r
+        if i == 0 and len(r.get("steps", [])) > 3:
+            s3 = r["steps"][3]
+            sample = {"trace_schedule": line[:200], "step3": {"label": s3["l"], "commits": s3["commits"][:1], "det": s3["det"]}}
+    recs = [kept[i] for i in sorted(kept)]
+    ctx.coverage["trace"] = {"schedules": len(lines), "max_labels": nl, "families": fam, "steps": nsteps, "judged": tot}
     ctx.coverage["trace_distinct_nontrivial"] = nontrivial
     ctx.trace_recs = recs
-    if recs and "steps" in recs[0] and len(recs[0]["steps"]) > 3:
-        s = recs[0]["steps"][3]
-        ctx.samples.append({"trace_schedule": lines[0][:200], "step3": {"label": s["l"], "commits": s["commits"][:1], "det": s["det"]}})
+    if sample:
+        ctx.samples.append(sample)
     return fails
 
 
@@ -724,7 +736,7 @@ def run(ctx):
         okc, outc = ctx.coq_make(["Model/ChanSys.vo"])
         if okc:
             try:
-                nr, ns, mdis = T.model_correspondence(ctx, ctx.trace_recs, 32 if ctx.tier == "quick" else 1500)
+                nr, ns, mdis = T.model_correspondence(ctx, ctx.trace_recs, 32 if ctx.tier == "quick" else 300)
                 ctx.coverage["model_replay"] = {"scenarios": nr, "steps": ns, "disagreements": len(mdis)}
             except Exception as ex:
                 mdis = [{"scenario": "?", "step": -1, "what": "model replay failed: %r" % (ex,)}]
